@@ -4,7 +4,7 @@
    [in_scope] is Contract.in_scope (under the root, non-recursive: a direct child); it agrees with pipeprops.in_scope
    on every path of a well-formed tree. *)
 Require Import WD.Base.Prelude WD.Base.BStr WD.Model.SubEvents WD.Model.Emitter WD.Model.Fs WD.Model.Reader
-               WD.Model.Contract.
+               WD.Model.Grouping WD.Model.Pipeline WD.Model.Contract.
 Require Import WD.Proofs.SubEventsProofs WD.Proofs.ContractProofs WD.Proofs.CoverProofs.
 
 Local Arguments sep : simpl never.
@@ -923,7 +923,7 @@ Proof. intros (d & n & -> & [_ Hs] & Hn). exists d, n. auto. Qed.
 
 (* ================================================================== the one-operation replay law *)
 (* the operations of C02's covered_op; Chmod must not be applied to the root itself *)
-Definition c01_op (C : cfg) (w : world) (o : op) : Prop :=
+Definition c01_op0 (C : cfg) (w : world) (o : op) : Prop :=
   covered_op C w o /\
   match o with
   | Chmod p => p <> c_root C
@@ -932,7 +932,7 @@ Definition c01_op (C : cfg) (w : world) (o : op) : Prop :=
   | _ => True
   end.
 
-Lemma delivers_covered C full w k r o w' : RSync C w k r -> c_mask C = WATCHDOG_ALL -> c01_op C w o ->
+Lemma delivers_covered C full w k r o w' : RSync C w k r -> c_mask C = WATCHDOG_ALL -> c01_op0 C w o ->
   apply_op w o = Some w' -> delivers C full w k r o.
 Proof.
   intros S Hm [Ho Hch] Ha. assert (Hq := rs_queue _ _ _ _ S). assert (Hpd := rs_pend _ _ _ _ S). assert (W := rs_wf _ _ _ _ S).
@@ -990,7 +990,7 @@ Proof.
     + intros e He. apply npath_wf_path. now apply (wf_np w W).
 Qed.
 
-Lemma ctr_ok_covered C full w o w' : wf_fs w -> c01_op C w o -> apply_op w o = Some w' ->
+Lemma ctr_ok_covered C full w o w' : wf_fs w -> c01_op0 C w o -> apply_op w o = Some w' ->
   ctr_ok (c_recursive C) (c_root C) (tl (c_recursive C) (c_root C) w) (tl (c_recursive C) (c_root C) w')
          (contract (c_recursive C) full (c_root C) (w_fs w) o).
 Proof.
@@ -1022,6 +1022,257 @@ Qed.
 Definition delivered (C : cfg) (full : bool) (w' : world) (raws : list raw) : list nevent :=
   emit_all full (c_recursive C) (c_root C) (content (w_fs w')) (group_batch C raws).
 
+
+(* ================================================================== a directory moved into the tree *)
+(* os.walk lists EVERY entry below the directory (the converse of desc_content_sound) *)
+Definition kof (b : bool) : kind := if b then KDir else KFile.
+
+Lemma desc_content_complete w : wf_fs w -> forall fuel d de base e, In de (w_fs w) -> f_path de = d ->
+  length (filter (fun x => under d (f_path x)) (w_fs w)) < fuel ->
+  In e (w_fs w) -> under d (f_path e) = true ->
+  exists rel', rel' <> [] /\ f_path e = d ++ relsuffix rel' /\
+               In (kof (f_dir e), base ++ rel') (desc base (content_fuel fuel (w_fs w) d)).
+Proof.
+  intros W. induction fuel as [|fuel IH]; intros d de base e Hde Ede Hk He Ue; [lia|].
+  cbn [content_fuel]. rewrite desc_unfold.
+  destruct (chain_child_gen w W _ e (le_n _) He d de Hde Ue (or_introl (eq_sym Ede))) as (c & Hc & Ec & Hce).
+  assert (Nc := wf_np w W c Hc).
+  assert (Hch : is_child d (f_path c) = true) by now apply is_child_np.
+  assert (Hcp : f_path c = d ++ relsuffix [basename (f_path c)]).
+  { rewrite relsuffix_one. rewrite <- Ec. now apply npath_parts. }
+  destruct Hce as [->|Hce].
+  - exists [basename (f_path e)]. split; [discriminate|]. split; [exact Hcp|]. rewrite !in_app_iff.
+    destruct (f_dir e) eqn:De; cbn [kof].
+    + left. rewrite map_map. apply in_map_iff. exists e. cbn [fst]. split; [reflexivity|]. apply filter_In. now rewrite Hch, De.
+    + right. left. rewrite map_map. apply in_map_iff. exists e. split; [reflexivity|]. apply filter_In. now rewrite Hch, De.
+  - assert (Dc : f_dir c = true).
+    { assert (Hx : isdir_in (f_path c) (w_fs w)) by (apply (chain w e (f_path c) c W He Hc Hce); now left).
+      destruct Hx as (c' & Hc' & Ec' & Dc'). assert (c' = c) by (apply (path_inj (w_fs w)); [apply W| | |]; assumption). congruence. }
+    assert (Ucd : under d (f_path c) = true) by (rewrite <- Ec; now apply under_dirname).
+    assert (Hlt : length (filter (fun x => under (f_path c) (f_path x)) (w_fs w)) < fuel).
+    { assert (H := filter_length_lt (fun x => under (f_path c) (f_path x)) (fun x => under d (f_path x)) (w_fs w) c).
+      cbv beta in H. specialize (H (fun x Hx => under_trans _ _ _ Ucd Hx) Hc (under_irrefl _) Ucd). lia. }
+    destruct (IH (f_path c) c (base ++ [basename (f_path c)]) e Hc eq_refl Hlt He Hce) as (rel' & Hne & Ee & Hin).
+    exists (basename (f_path c) :: rel'). split; [discriminate|]. split.
+    + rewrite Ee, Hcp at 1. change (basename (f_path c) :: rel') with ([basename (f_path c)] ++ rel').
+      now rewrite relsuffix_app, app_assoc.
+    + rewrite !in_app_iff. right. right. apply in_flat_map.
+      exists (basename (f_path c), content_fuel fuel (w_fs w) (f_path c)). split.
+      * apply in_map_iff. exists c. split; [reflexivity|]. apply filter_In. now rewrite Hch, Dc.
+      * cbn [fst snd]. rewrite <- app_assoc in Hin. exact Hin.
+Qed.
+
+Lemma kdir_kof b : kdir (kof b) = b. Proof. now destruct b. Qed.
+
+(* the listing of a directory of the file system: exactly the entries below it, with their kinds *)
+Lemma content_listing w q : wf_fs w -> fisdir q (w_fs w) = true -> forall x v,
+  In (x, v) (map (fun d : kind * list bytes => (q ++ relsuffix (snd d), kdir (fst d))) (desc [] (content (w_fs w) q))) <->
+  exists e, In e (w_fs w) /\ f_path e = x /\ f_dir e = v /\ under q x = true.
+Proof.
+  intros W Hq x v. unfold content. rewrite Hq. split.
+  - intros Hin. apply in_map_iff in Hin as ([k rel] & E & Hin). cbn [fst snd] in E. injection E as <- <-.
+    destruct (desc_content_sound w W _ _ _ _ _ Hin) as (rel' & E & Hne & e & He & Ee & De). cbn [app] in E. subst rel'.
+    exists e. split; [exact He|]. split; [exact Ee|]. split; [exact De|].
+    destruct (relsuffix_form rel Hne) as [s ->]. apply under_app.
+  - intros (e & He & <- & <- & Ue). apply fisdir_in in Hq as (qe & Hqe & Eqe & _).
+    assert (Hlt : length (filter (fun y => under q (f_path y)) (w_fs w)) < length (w_fs w)).
+    { assert (H := filter_length_lt (fun y => under q (f_path y)) (fun _ => true) (w_fs w) qe (fun _ _ => eq_refl) Hqe).
+      cbv beta in H. rewrite Eqe in H. specialize (H (under_irrefl q) eq_refl).
+      assert (E : filter (fun _ : fent => true) (w_fs w) = w_fs w) by (clear; induction (w_fs w) as [|a l IHl]; cbn; congruence).
+      now rewrite E in H. }
+    destruct (desc_content_complete w W (length (w_fs w)) q qe [] e Hqe Eqe Hlt He Ue) as (rel' & Hne & Ee & Hin).
+    apply in_map_iff. exists (kof (f_dir e), rel'). cbn [fst snd app] in *. split; [now rewrite Ee, kdir_kof | exact Hin].
+Qed.
+
+Section InSem.
+  Variables (recursive full : bool) (root : bytes).
+  Let ins := in_scope recursive root.
+  Let fr := freplay1 recursive root.
+  Let tlw := tl recursive root.
+
+  Definition fputs (L : list (bytes * bool)) (g : pt) : pt :=
+    fold_left (fun f kv => fput recursive root (fst kv) (snd kv) f) L g.
+
+  Lemma fputs_noins L : forall g x, ins x = false -> fputs L g x = g x.
+  Proof.
+    induction L as [|[k v] L IH]; intros g x Hx; cbn [fputs fold_left]; [reflexivity|]. fold (fputs L).
+    rewrite IH by exact Hx. unfold fput. cbn [fst snd]. destruct (beqb x k) eqn:E; [|now rewrite andb_false_r].
+    apply beqb_eq in E. subst k. fold ins. now rewrite Hx.
+  Qed.
+
+  Lemma fputs_other L : forall g x, (forall v, ~ In (x, v) L) -> fputs L g x = g x.
+  Proof.
+    induction L as [|[k v] L IH]; intros g x Hx; cbn [fputs fold_left]; [reflexivity|]. fold (fputs L).
+    rewrite IH by (intros v0 H; apply (Hx v0); now right). unfold fput. cbn [fst snd].
+    destruct (beqb x k) eqn:E; [|now rewrite andb_false_r]. apply beqb_eq in E. subst k. exfalso. apply (Hx v). now left.
+  Qed.
+
+  Lemma fputs_hit L : forall g x v0, ins x = true -> (forall v, In (x, v) L -> v = v0) ->
+    (exists v, In (x, v) L) \/ g x = Some v0 -> fputs L g x = Some v0.
+  Proof.
+    induction L as [|[k v] L IH]; intros g x v0 Hx Hv Hor; cbn [fputs fold_left].
+    - destruct Hor as [[v' []]|H]; exact H.
+    - fold (fputs L). apply IH; [exact Hx | intros v' H; apply Hv; now right|].
+      destruct Hor as [[v' [E|H]]|H].
+      + injection E as -> ->. right. unfold fput. cbn [fst snd]. fold ins. now rewrite Hx, beqb_refl, (Hv v' (or_introl eq_refl)).
+      + left. eauto.
+      + right. unfold fput. cbn [fst snd]. fold ins. destruct (ins k && beqb x k) eqn:E; [|exact H].
+        apply andb_true_iff in E as [_ E]. apply beqb_eq in E. subst k. now rewrite (Hv v (or_introl eq_refl)).
+  Qed.
+
+  Lemma fput_ext k v f g : peq f g -> peq (fput recursive root k v f) (fput recursive root k v g).
+  Proof. intros H x. unfold fput. now rewrite H. Qed.
+
+  Lemma fputs_ext L : forall f g, peq f g -> peq (fputs L f) (fputs L g).
+  Proof. induction L as [|[k v] L IH]; intros f g H; cbn [fputs fold_left]; [exact H|]. apply IH. now apply fput_ext. Qed.
+
+  Definition freplays (g : pt) (evs : list nevent) : pt := fold_left fr evs g.
+
+  Lemma replay_sem_list evs : forall t g, NoDup (map fst t) -> peq (look t) g ->
+    peq (look (replay recursive root t evs)) (freplays g evs).
+  Proof.
+    induction evs as [|e evs IH]; intros t g Hn Hg; cbn [replay fold_left freplays]; [exact Hg|].
+    apply IH; [now apply replay1_nodup|]. intros x. rewrite (replay1_sem _ _ t e Hn). now apply freplay1_ext.
+  Qed.
+
+  Definition mkC (synth : bool) (kv : bytes * bool) : nevent :=
+    {| ev_cls := created_cls (snd kv); ev_src := fst kv; ev_dest := []; ev_synth := synth |}.
+
+  Lemma fr_mkC g sy kv : fr g (mkC sy kv) = fput recursive root (fst kv) (snd kv) g.
+  Proof. unfold fr, freplay1, mkC. cbn [ev_cls ev_src]. destruct (snd kv); reflexivity. Qed.
+
+  Lemma freplays_created sy L : forall g, freplays g (map (mkC sy) L) = fputs L g.
+  Proof. induction L as [|kv L IH]; intros g; cbn [map freplays fold_left fputs]; [reflexivity|]. rewrite fr_mkC. apply IH. Qed.
+
+  (* the events of a directory moved in: DirCreated(q) [full emitter: DirMoved(None, q)], the parent's DirModified, one
+     synthetic created event per descendant *)
+  Definition movein_events (q : bytes) (T : SubEvents.tree) : list nevent :=
+    (if full then mk (moved_cls true) [] q else mk (created_cls true) q []) :: parent_modified q :: sub_created q T.
+
+  Lemma freplays_movein g q T : q <> [] -> last_is_sep q = false -> wf_tree T = true ->
+    freplays g (movein_events q T) =
+    fputs ((q, true) :: map (fun d : kind * list bytes => (q ++ relsuffix (snd d), kdir (fst d))) (desc [] T)) g.
+  Proof.
+    intros H0 Hs Hwf. unfold movein_events, freplays. cbn [fold_left].
+    assert (E1 : fr g (if full then mk (moved_cls true) [] q else mk (created_cls true) q []) = fput recursive root q true g).
+    { destruct full; unfold fr, freplay1; cbn; [destruct q; [contradiction | reflexivity] | reflexivity]. }
+    assert (E2 : forall h, fr h (parent_modified q) = h) by (intros; apply fr_pm).
+    rewrite E1, E2. rewrite (sub_created_synth_eq q T H0 Hs Hwf). unfold synth_created.
+    match goal with |- _ = fputs (_ :: ?L) g => change (fputs ((q, true) :: L) g) with (fputs L (fput recursive root q true g)) end.
+    rewrite <- (freplays_created true). unfold freplays. f_equal.
+    rewrite map_map. apply map_ext. intros [k rel]. unfold mkC. cbn. now destruct k.
+  Qed.
+
+  (* what these events do to the tree *)
+  Lemma movein_sem w p q w' ep : wf_fs w -> npath p -> npath q -> apply_op w (Rename p q) = Some w' ->
+    flookup p (w_fs w) = Some ep -> f_dir ep = true -> flookup q (w_fs w) = None ->
+    (forall x, ins x = true -> below p x = false) -> ins q = true ->
+    peq (fputs ((q, true) :: map (fun d : kind * list bytes => (q ++ relsuffix (snd d), kdir (fst d)))
+                                 (desc [] (content (w_fs w') q))) (tlw w)) (tlw w').
+  Proof.
+    intros W Np Nq Ha El De Elq Hp Hq x.
+    assert (W' : wf_fs w') by exact (wf_apply_op w (Rename p q) w' W (conj Np Nq) Ha).
+    destruct (rename_look w p q w' W Np Nq Ha) as (ep' & El' & Hne & Hupq & Huqp & Hbq & _ & Hfd).
+    assert (ep' = ep) by congruence. subst ep'.
+    assert (Fq' : fdl (w_fs w') q = Some true).
+    { rewrite Hfd. cbv zeta. rewrite below_refl, skipn_all, app_nil_r. apply beqb_neq in Hne. rewrite Hne. unfold fdl. now rewrite El, <- De. }
+    assert (Dq' : fisdir q (w_fs w') = true).
+    { unfold fdl in Fq'. unfold fisdir. destruct (flookup q (w_fs w')) as [e|]; [|discriminate]. cbn in Fq'. congruence. }
+    set (L := (q, true) :: _). unfold tlw. rewrite !tlw_fdl. fold ins.
+    destruct (ins x) eqn:Ix; [|now rewrite fputs_noins, tlw_fdl; fold ins; rewrite ?Ix].
+    assert (HL : forall v, In (x, v) L <-> (x = q /\ v = true) \/
+                   exists e, In e (w_fs w') /\ f_path e = x /\ f_dir e = v /\ under q x = true).
+    { intros v. unfold L. cbn [In]. rewrite (content_listing w' q W' Dq' x v). split; (intros [H|H]; [left|right; exact H]).
+      - now injection H as <- <-.
+      - destruct H as [-> ->]. reflexivity. }
+    destruct (bytes_eq_dec x q) as [->|Hxq].
+    - rewrite Fq'. apply fputs_hit; [exact Ix| |left; exists true; apply HL; now left].
+      intros v Hv. apply HL in Hv as [[_ ->]|(e & _ & _ & _ & U)]; [reflexivity | now rewrite under_irrefl in U].
+    - destruct (under q x) eqn:Ux.
+      + unfold fdl at 1. destruct (flookup x (w_fs w')) as [e'|] eqn:Ex.
+        * destruct (flookup_some _ _ _ Ex) as [He' Ee']. cbn [option_map]. apply fputs_hit; [exact Ix| |].
+          -- intros v Hv. apply HL in Hv as [[E _]|(e & He & Ee & <- & _)]; [contradiction|].
+             f_equal. apply (path_inj (w_fs w')); [apply W'| | |]; congruence.
+          -- left. exists (f_dir e'). apply HL. right. exists e'. auto.
+        * cbn [option_map]. rewrite fputs_other.
+          -- rewrite tlw_fdl. fold ins. rewrite Ix. unfold fdl. destruct (flookup x (w_fs w)) as [e|] eqn:E0; [|reflexivity].
+             destruct (flookup_some _ _ _ E0) as [He Ee]. rewrite <- Ee, (Hbq e He) in Ux. discriminate.
+          -- intros v Hv. apply HL in Hv as [[E _]|(e & He & Ee & _)]; [contradiction|].
+             rewrite <- Ee, (flookup_in _ e (wf_paths _ W') He) in Ex. discriminate.
+      + rewrite fputs_other.
+        * rewrite tlw_fdl. fold ins. rewrite Ix, Hfd. cbv zeta. unfold below at 1. apply beqb_neq in Hxq. rewrite Hxq, Ux. cbn [orb].
+          now rewrite (Hp x Ix).
+        * intros v Hv. apply HL in Hv as [[E _]|(e & _ & _ & _ & U)]; [contradiction | congruence].
+  Qed.
+End InSem.
+
+Lemma delivered_movein C full w' wd c q : c_recursive C = true ->
+  delivered C full w' [{| r_wd := wd; r_mask := N.lor IN_MOVED_TO IN_ISDIR; r_cookie := c; r_name := basename q; r_path := q |}]
+  = movein_events full q (content (w_fs w') q).
+Proof.
+  intros Hrec. unfold delivered, group_batch, group_go, movein_events.
+  change (nkind_of C {| r_wd := wd; r_mask := N.lor IN_MOVED_TO IN_ISDIR; r_cookie := c; r_name := basename q; r_path := q |}) with (KTo c).
+  cbn [pair_in_batch app filter put_item].
+  change (nkind_of C {| r_wd := wd; r_mask := N.lor IN_MOVED_TO IN_ISDIR; r_cookie := c; r_name := basename q; r_path := q |}) with (KTo c).
+  cbn [emit_all emit]. unfold emit_single. cbn [r_mask r_path].
+  change (Emitter.is_moved_to (N.lor IN_MOVED_TO IN_ISDIR)) with true.
+  change (Emitter.is_directory (N.lor IN_MOVED_TO IN_ISDIR)) with true. rewrite Hrec. cbn [andb]. cbv iota beta.
+  now rewrite app_nil_r.
+Qed.
+
+(* One directory moved into the tree from outside (to a fresh name), one read, grouping, emission: the reader is synchronised
+   again and the replayed tree has the arrived sub-tree *)
+Theorem replay_step_in C full w k r p q ep w' t : c_faults C = [] -> c_mask C = WATCHDOG_ALL -> RSync C w k r ->
+  npath p -> npath q -> c_recursive C = true -> c_fix_movein C = true ->
+  flookup p (w_fs w) = Some ep -> f_dir ep = true -> ~ scope C p -> under p (c_root C) = false -> scope C q ->
+  flookup q (w_fs w) = None -> apply_op w (Rename p q) = Some w' -> TInv (c_recursive C) (c_root C) t w ->
+  let k1 := kernel_op k (w_fs w) (Rename p q) in
+  exists r' k' raws,
+    read_batch C (w_fs w') (r, drainq k1, []) (k_queue k1) = Done (r', k', raws) /\ RSync C w' k' r' /\
+    deliver_one C full w k r (Rename p q) = Some (delivered C full w' raws) /\
+    TInv (c_recursive C) (c_root C) (replay (c_recursive C) (c_root C) t (delivered C full w' raws)) w'.
+Proof.
+  intros Hf Hm S Np Nq Hrec Hfix El De Sp Hpr Sq Elq Ha [Tn Tg] k1.
+  assert (M : mask_ok C) by (unfold mask_ok; rewrite Hm; repeat split; vm_compute; discriminate).
+  destruct M as (M1 & M2 & M3).
+  destruct (step_rename_dir_in_ev C Hf w k r p q w' ep S Np Nq Hrec Hfix M2 M3 Ha El De Sp Hpr Sq Elq) as (r' & k' & wd & Hrd & S').
+  fold k1 in Hrd. eexists r', k', _. split; [exact Hrd|]. split; [exact S'|]. split.
+  { unfold deliver_one. rewrite Ha. change (kdrained (kernel_op k (w_fs w) (Rename p q))) with (drainq k1). fold k1. now rewrite Hrd. }
+  assert (W := rs_wf _ _ _ _ S). assert (W' := rs_wf _ _ _ _ S').
+  split; [now apply replay_nodup|].
+  rewrite (delivered_movein C full w' wd (k_next_cookie k) q Hrec).
+  assert (Hq0 : q <> [] /\ last_is_sep q = false).
+  { destruct Nq as (d & n & -> & _ & Hv). split; [now destruct d | now apply child_last_sep]. }
+  assert (Hwf : wf_tree (content (w_fs w') q) = true).
+  { apply content_wf. intros e He. apply npath_wf_path. exact (wf_np w' W' e He). }
+  intros x. rewrite (replay_sem_list (c_recursive C) (c_root C) _ t (tl (c_recursive C) (c_root C) w) Tn Tg x).
+  rewrite (freplays_movein (c_recursive C) full (c_root C) _ q _ (proj1 Hq0) (proj2 Hq0) Hwf).
+  apply (movein_sem (c_recursive C) (c_root C) w p q w' ep W Np Nq Ha El De Elq).
+  - intros y Hy. unfold in_scope in Hy. rewrite Hrec in Hy. cbn [orb] in Hy. rewrite andb_true_r in Hy.
+    assert (Sy : scope C y) by (unfold scope; rewrite Hrec; now right).
+    destruct (scope_not_below C p y Hrec Sp Hpr Sy) as [E1 E2]. unfold below. apply beqb_neq in E1. now rewrite E1, E2.
+  - unfold in_scope. rewrite Hrec. cbn [orb]. rewrite andb_true_r. unfold scope in Sq. rewrite Hrec in Sq.
+    destruct Sq as [->|Sq]; [|exact Sq]. exfalso. destruct (rs_root _ _ _ _ S) as (er & Her & Eer & _).
+    apply CoverProofs.flookup_none in Elq. apply Elq. rewrite <- Eer. now apply in_map.
+Qed.
+
+(* the operations of the replay law: those whose events are C03's contract (c01_op0), and a directory moved into the tree *)
+Definition c01_in (C : cfg) (w : world) (o : op) : Prop :=
+  match o with
+  | Rename p q => exists ep, npath p /\ npath q /\ c_recursive C = true /\ c_fix_movein C = true /\
+                    flookup p (w_fs w) = Some ep /\ f_dir ep = true /\ ~ scope C p /\ under p (c_root C) = false /\
+                    scope C q /\ flookup q (w_fs w) = None
+  | _ => False
+  end.
+
+Definition c01_op (C : cfg) (w : world) (o : op) : Prop := c01_op0 C w o \/ c01_in C w o.
+
+Lemma c01_op_covered C w o : c01_op C w o -> covered_op C w o.
+Proof.
+  intros [[H _]|H]; [exact H|]. destruct o as [p|p|p|p|p|p|p q]; try contradiction.
+  destruct H as (ep & Np & Nq & Hrec & Hfix & El & De & Sp & Hpr & Sq & Elq). eapply co_rename_dir_in; eassumption.
+Qed.
+
 (* One operation, one read of the whole kernel queue, grouping (a MOVED_FROM/MOVED_TO pair of one cookie is one item),
    emission: the reader is synchronised again and the replayed tree follows the real tree. *)
 Theorem replay_step C full w k r o w' t : c_faults C = [] -> c_mask C = WATCHDOG_ALL ->
@@ -1032,7 +1283,11 @@ Theorem replay_step C full w k r o w' t : c_faults C = [] -> c_mask C = WATCHDOG
     deliver_one C full w k r o = Some (delivered C full w' raws) /\
     TInv (c_recursive C) (c_root C) (replay (c_recursive C) (c_root C) t (delivered C full w' raws)) w'.
 Proof.
-  intros Hf Hm S Ho Ha [Tn Tg] k1.
+  intros Hf Hm S Ho Ha T k1. destruct Ho as [Ho|Hin].
+  2:{ destruct o as [p|p|p|p|p|p|p q]; try contradiction.
+      destruct Hin as (ep & Np & Nq & Hrec & Hfix & El & De & Sp & Hpr & Sq & Elq).
+      exact (replay_step_in C full w k r p q ep w' t Hf Hm S Np Nq Hrec Hfix El De Sp Hpr Sq Elq Ha T). }
+  destruct T as [Tn Tg].
   assert (M : mask_ok C) by (unfold mask_ok; rewrite Hm; repeat split; vm_compute; discriminate).
   destruct (cover_step C Hf w k r o w' M S (proj1 Ho) Ha) as (r' & k' & raws & Hrd & S').
   destruct (delivers_covered C full w k r o w' S Hm Ho Ha) as (evs & Hdel & Hcol).
